@@ -260,15 +260,19 @@ Definition check_mode_leaks (T : tables) : list raise_row :=
   filter (fun r => all_controlled (t_hier T) (route_at T false (r_site r) (r_local r) (mkexn (r_cls r) Deliberate))
                    && negb (check_quiet T (r_site r) (r_local r) (mkexn (r_cls r) Deliberate))) (t_raises T).
 
-(* classes a chain reports as warnings in check mode: caught by a CheckWarn-only clause before anything else *)
-Fixpoint warned_by (H : hierarchy) (hs : list handler) (chain : list frame) (c : cls) : option bool :=
+(* classes a chain reports as warnings in check mode: the first clause that handles the class (after any number of
+   clauses that only re-raise it or convert it into another class) is a warn-or-reraise clause.
+   -> the class the warning names and whether it ends the loop *)
+Fixpoint warned_by (H : hierarchy) (hs : list handler) (chain : list frame) (c : cls) : option (cls * bool) :=
   match chain with
   | [] => None
   | f :: rest =>
       match first_clause H c (frame_clauses hs f) with
       | None => warned_by H hs rest c
       | Some cl => match c_actions cl with
-                   | [CheckWarn] => Some (f_ends_loop f)
+                   | [CheckWarn] => Some (c, f_ends_loop f)
+                   | [Reraise] => warned_by H hs rest c
+                   | [Convert d] => warned_by H hs rest d
                    | _ => None
                    end
       end
